@@ -189,7 +189,8 @@ TPerftCli ==
 
 TPanic ==
   /\ IsEvent("Panic")
-  /\ Diag(Rec[l].prop, FALSE, [kind |-> "panic in code under test", where |-> Rec[l].where, msg |-> Rec[l].msg])
+  \* (events without a property name are judged under the property whose check recorded the trace)
+  /\ Diag(IF "prop" \in DOMAIN Rec[l] THEN Rec[l].prop ELSE "PANIC", FALSE, [kind |-> "panic in code under test", where |-> Rec[l].where, msg |-> Rec[l].msg])
   /\ UNCHANGED <<pos, dom, consts>>
 
 TraceInit == l = 1 /\ pos = StartPos /\ dom = TRUE /\ consts = [mate |-> <<0>>, threshold |-> 0]
